@@ -45,8 +45,17 @@ structure MEv where
   args : Option Args
 deriving DecidableEq, Repr
 
-/-- Python `pat in s` for a non-empty pattern -/
-def hasSub (pat s : String) : Bool := decide ((s.splitOn pat).length ≥ 2)
+def isPrefixL : List Char → List Char → Bool
+  | [], _ => true
+  | _ :: _, [] => false
+  | a :: as, b :: bs => a == b && isPrefixL as bs
+
+def isInfixL (p : List Char) : List Char → Bool
+  | [] => isPrefixL p []
+  | c :: cs => isPrefixL p (c :: cs) || isInfixL p cs
+
+/-- Python `pat in s` (structural on the character lists, so that it also evaluates in the kernel) -/
+def hasSub (pat s : String) : Bool := isInfixL pat.toList s.toList
 
 /-- `get_opIds_from_event`: index of the first keyword of
     `[" DmaI", " Cmpt Prep", " Cmpt Exec", " DmaO"]` contained in the name, 0 when none is -/
@@ -234,8 +243,15 @@ def alter (c : Calib) (e : MEv) : Except String MEv :=
           | some t => .ok { e with ts := t, args := some { a with tsDev := some dev, tsAll := some all } }
     else .ok e
 
-/-- `revents.sort(key=lambda x: x["ts"])`: stable sort by ts -/
-def sortOut (l : List MEv) : List MEv := l.mergeSort (fun a b => decide (a.ts ≤ b.ts))
+/-- insert before the first element that is not earlier (keeps equal keys in arrival order) -/
+def insertTs (e : MEv) : List MEv → List MEv
+  | [] => [e]
+  | x :: xs => if e.ts ≤ x.ts then e :: x :: xs else x :: insertTs e xs
+
+/-- `revents.sort(key=lambda x: x["ts"])`: a stable sort by ts (modelled as the structurally
+    recursive stable insertion sort, which the kernel can evaluate; the result of a stable sort
+    is unique, so this is the list Python's timsort returns) -/
+def sortOut (l : List MEv) : List MEv := l.foldr insertTs []
 
 /-- `MpSyncTightContext.drain` on the buffered events: calibrate + alter when there is something
     to align, pop everything from the back (reversal), stable sort by ts -/
